@@ -23,7 +23,7 @@ import struct
 
 from hypothesis import strategies as st
 
-from vlib import core, tools
+from vlib import core, slow, tools
 from vlib import elf as E
 from vlib.core import Check, Discard, Inconclusive, Violation
 from vlib.elf import Elf
@@ -210,13 +210,13 @@ class C08(Check):
             src = ".text\n.byte 0x90,0x90\n" + "".join(texts[o]) + "".join(datas[o])
             if o == 0:
                 src += ".text\n.globl _start\n.type _start,@function\n_start: ret\n"
-            tools.asm(src.encode("utf-8"), f"o{o}.o", cwd=d)
+            slow.asm(src.encode("utf-8"), f"o{o}.o", cwd=d)
             objs.append(f"o{o}.o")
         helper = None
         if imports:
             hs = ".data\n.byte 1\n" + "".join(f".globl {n}\n.type {n},@object\n{n}: .quad 0\n" for n in imports)
-            tools.asm(hs, "h.o", cwd=d)
-            tools.must(tools.link("ld", ["-shared", "-o", "libh.so", "h.o"], cwd=d), "helper library")
+            slow.asm(hs, "h.o", cwd=d)
+            tools.must(slow.link("ld", ["-shared", "-o", "libh.so", "h.o"], cwd=d), "helper library")
             helper = "libh.so"
         if vscript:
             tools.write(f"{d}/v.map", vscript)
@@ -340,7 +340,7 @@ class C08(Check):
             args = self.link_args(case, objs, helper, has_vs, out)
             if who == "wild" and case["threads"]:
                 args = [f"--threads={case['threads']}"] + args
-            r = tools.link(who, args, cwd=d)
+            r = slow.link(who, args, cwd=d)
             if who == "wild":
                 if r.timed_out:
                     raise Inconclusive("wild timed out")
@@ -400,7 +400,9 @@ class C08(Check):
         tools.write(f"{d}/names.{who}", blob)
 
         def run(lib):
-            r = tools.run_exe(exe, cwd=d, args=[lib, f"names.{who}"], env={"LD_LIBRARY_PATH": d}, timeout=30)
+            r = tools.run_exe(exe, cwd=d, args=[lib, f"names.{who}"], env={"LD_LIBRARY_PATH": d}, timeout=200)
+            if r.timed_out:
+                raise Inconclusive("dlsym driver did not finish within 200 s (machine load?)")
             return r
 
         # Calibrate on GNU ld's library first.
